@@ -46,8 +46,11 @@ package main
 //@   assert [C18] only_a_cluster_can_be_a_bad_cluster: at Errorf#3: len(arg) > 2 && arg[0] == '-'
 //@   assert [C18] a_lone_dash_is_not_a_flag: at Errorf#4: len(arg) > 1 && arg[0] == '-'
 //@   assert [C18] one_file_at_most: at Errorf#5: len(rest) > 1
-//@   loop 1 invariant len(args) >= 0 && a.help == nil && (cap(rest) == 0 || (isnew(rest) && arr(rest) != arr(args)))
-//@   loop 2 invariant len(args) >= 1 && a.help == nil && (cap(rest) == 0 || (isnew(rest) && arr(rest) != arr(args))) && len(rest) == prev(len(rest)) && arr(rest) == prev(arr(rest)) && (forall i int :: 0 <= i && i < len(rest) ==> rest[i] == prev(rest[i]))
+//@   assert [C18] no_dump_name_only_without_a_flag_value_and_a_bcl_file: at Errorf#6: a.bdump && a.bdumpFile == ""
+//@   assert [C18] a_conflict_needs_both_a_file_argument_and_a_load_flag_value: at Errorf#7: len(rest) == 1 && a.bloadFile != ""
+//@   loop 1 breakstep [C18] only_the_terminator_takes_more_than_one_positional_argument: len(rest) > prev(len(rest)) + 1 ==> prev(args[0]) == "--"
+//@   loop 1 invariant len(args) >= 0 && a.help == nil && a.file == "" && (cap(rest) == 0 || (isnew(rest) && arr(rest) != arr(args)))
+//@   loop 2 invariant len(args) >= 1 && a.help == nil && a.file == "" && (cap(rest) == 0 || (isnew(rest) && arr(rest) != arr(args))) && len(rest) == prev(len(rest)) && arr(rest) == prev(arr(rest)) && (forall i int :: 0 <= i && i < len(rest) ==> rest[i] == prev(rest[i]))
 //@   loop 2 invariant cap(oneLetterFlags) == 0 || (isnew(oneLetterFlags) && arr(oneLetterFlags) != arr(rest))
 //@   loop 2 invariant (prev(a.disasm) ==> a.disasm) && (prev(a.trace) ==> a.trace) && (prev(a.result) ==> a.result) && (prev(a.stats) ==> a.stats) && (prev(a.bdump) ==> a.bdump) && (prev(a.bload) ==> a.bload)
 //@   loop 1 breakstep [C18] positional_arguments_are_kept: len(rest) >= prev(len(rest)) && (forall i int :: 0 <= i && i < prev(len(rest)) ==> rest[i] == prev(rest[i]))
